@@ -1,0 +1,66 @@
+//go:build verif
+// +build verif
+
+package gofakes3
+
+// Contracts for the deductive verifier in /verif (gvc). This file is only
+// compiled with the build tag "verif"; it adds no behaviour to the package.
+// Blocks of //@ lines are contracts keyed by function; the Go functions below
+// are pure specification functions, translated by the same VC generator and
+// executed by counterexample replays.
+
+// ---- C11: ranges -----------------------------------------------------------
+
+// specRangeOK: the request denotes a non-empty part of an object of `size` bytes.
+func specRangeOK(fromEnd bool, start, end, size int64) bool {
+	if fromEnd {
+		return 0 < end && end <= size // "-n": a suffix of 1..size bytes
+	}
+	return 0 <= start && start < size // "a-b" / "a-": must start inside the object
+}
+
+func specRangeStart(fromEnd bool, start, end, size int64) int64 {
+	if fromEnd {
+		return size - end
+	}
+	return start
+}
+
+func specRangeLen(fromEnd bool, start, end, size int64) int64 {
+	if fromEnd {
+		return end
+	}
+	if end == RangeNoEnd || end >= size-1 { // open-ended or beyond the end: clip
+		return size - start
+	}
+	return end - start + 1
+}
+
+// wfRangeReq is what parseRangeHeader guarantees about its result.
+func wfRangeReq(o *ObjectRangeRequest) bool {
+	return o == nil || o.FromEnd || (o.Start >= 0 && (o.End == RangeNoEnd || o.End >= o.Start))
+}
+
+//@ func (*ObjectRangeRequest).Range
+//@ props C11 C09
+//@ requires          sz:      size >= 0
+//@ requires          wf:      wfRangeReq(o)
+//@ ensures [C11]     nilreq:  imp(o == nil, ret0 == nil && ret1 == nil)
+//@ ensures [C11]     ok:      imp(o != nil && specRangeOK(o.FromEnd, o.Start, o.End, size),
+//@                              ret1 == nil && ret0 != nil &&
+//@                              ret0.Start == specRangeStart(o.FromEnd, o.Start, o.End, size) &&
+//@                              ret0.Length == specRangeLen(o.FromEnd, o.Start, o.End, size))
+//@ ensures [C11]     bad:     imp(o != nil && !specRangeOK(o.FromEnd, o.Start, o.End, size),
+//@                              ret0 == nil && errcode(ret1) == ErrInvalidRange)
+//@ ensures [C11,C09] inside:  imp(ret0 != nil, 0 <= ret0.Start && 1 <= ret0.Length &&
+//@                              ret0.Start + ret0.Length <= size)
+//@ ensures           fresh:   imp(ret0 != nil, fresh(ret0))
+//@ modifies nothing
+
+//@ func parseClampedInt
+//@ props C04 C09 C14
+//@ requires          order:   min <= max
+//@ ensures [C04,C14] clamp:   imp(ret1 == nil, min <= ret0 && ret0 <= max)
+//@ ensures [C04,C14] dflt:    imp(ret1 == nil && in == "", ret0 == ite(defaultValue < min, min, ite(defaultValue > max, max, defaultValue)))
+//@ ensures [C09]     err:     imp(ret1 != nil, errcode(ret1) == ErrInvalidArgument)
+//@ modifies nothing
